@@ -262,3 +262,189 @@ def c03(tier, seed, only):
         "distributed optimisation = the worker loop optimize_and_queue (run here against a collecting queue) + the reducer (C11) + the split (C12)",
     ]
     return chk.finish({"solve": batch})
+
+
+@check("C04")
+def c04(tier, seed, only):
+    from nusym import h_heur
+
+    chk = Check("C04", tier, seed)
+    # (ii) every propagator under its loop budget 50 (n+m+6)^2, incl. infeasible capacities
+    batch = propfam.run_catalogue(chk, ["C04"], algs=only)
+    # (i)(iii)(iv) whole runs: pops per pass <= 4(P+1)(S+2), optimize rounds <= width+3, while-iterations <= 6000
+    runs = solvefam.plan(tier, seed, models=only)
+    batch2 = solvefam.run_plan(chk, ["C04"], runs)
+    for name in OPT_MODELS[:8] if tier == "quick" else OPT_MODELS:
+        if only and name not in only:
+            continue
+        for mode in ("minimize", "maximize"):
+            batch2 += solvefam.run_plan(chk, ["C04"], [(name, {})], mode=mode, objective=len(list(_objectives(name))) - 1)
+    # the variable heuristics never answer "none" (-1) while a decision variable is free
+    for vname in h_heur.VARH_NAMES:
+        if only and vname not in only:
+            continue
+        small = vname == "max_regret" and tier == "quick"
+        r = chk.explore("varheur", dict(vname=vname, select=["C04"], W=3 if small else 4), f"varheur/{vname}", time_limit=900 if tier == "quick" else 3600)
+        chk.require(vname, r.acc.counts.get("returned", 0) > 0, "never returned")
+        chk.functions.add(f"nucs.heuristics.{vname}_var_heuristic.{vname}_var_heuristic")
+    chk.assumptions += [
+        "unwinding assertions (checked, not assumed): while-iterations per compute_domains call <= 50 (n+m+6)^2; propagators popped per propagation pass <= 4 (P+1)(S+2) with P constraints and total domain size S; solve_one calls per optimisation <= width+3; while-iterations per whole run <= 6000",
+        "a path that exhausts a budget is turned into a concrete instance and replayed on the real build under a wall-clock watchdog; only a reproduced non-termination is reported",
+    ]
+    return chk.finish({"prop": batch, "solve": batch2})
+
+
+@check("C17")
+def c17(tier, seed, only):
+    chk = Check("C17", tier, seed)
+    runs = solvefam.plan(tier, seed, models=only)
+    batch = solvefam.run_plan(chk, ["C17"], runs)
+    for name in ("lt", "alldiff3", "queens_like", "count", "circuit3"):
+        if only and name not in only:
+            continue
+        for k in (1, 2):
+            batch += solvefam.run_plan(chk, ["C17"], [(name, {}), (name, dict(domh="mid"))], partial=k)
+        batch += solvefam.run_plan(chk, ["C17"], [(name, {})], mode="minimize", objective=0)
+    chk.stubs.append("ghost counters: interposed wrappers around every COMPUTE_DOMAINS_FCTS entry (calls, returned status, whether the domains changed), every DOM_HEURISTIC_FCTS entry (choices, deepest level), CONSISTENCY_ALG_FCTS entries and the BC call inside shaving (passes), backtrack (resumed choice points)")
+    chk.assumptions += [
+        "with shaving, SOLVER_CHOICE_NB / SOLVER_BACKTRACK_NB / SOLVER_CHOICE_DEPTH are not compared (shaving uses the same primitives internally); the propagator counters and ALG_BC_NB are",
+        "'each total is the sum over workers' is decided on the reducer in C11 (statistics-not-the-sum-of-final-vectors)",
+    ]
+    return chk.finish({"solve": batch})
+
+
+def _lemma_cfgs(tier, algs=None):
+    from nusym import catalogue
+
+    out = []
+    for cfg in catalogue.prop_catalogue(tier):
+        if algs and cfg["alg"] not in algs:
+            continue
+        out.append(cfg)
+    return out
+
+
+NARROW_MASK = {"affine_leq", "affine_geq", "max_leq", "min_geq", "no_sub_cycle"}
+MONO_DIRECT = {"and", "affine_leq", "affine_geq", "count_eq", "element_iv", "element_lic", "element_liv", "exactly_eq", "exactly_true", "lexicographic_leq", "max_eq", "max_leq", "min_eq", "min_geq", "relation"}
+
+
+@check("C08")
+def c08(tier, seed, only):
+    from nusym import h_lemma, h_solve  # noqa
+
+    chk = Check("C08", tier, seed)
+    # layer 1: trigger sufficiency (only the propagators with a narrow mask have anything to show)
+    for cfg in _lemma_cfgs(tier):
+        if cfg["alg"] not in NARROW_MASK or cfg["n"] > (3 if tier == "quick" else 4):
+            continue
+        if only and cfg["alg"] not in only:
+            continue
+        r = chk.explore("lemma_trigger", dict(cfg=cfg, known=chk.known), f"trigger/{cfg['alg']}/n={cfg['n']}/{cfg['params']}")
+        chk.require(cfg["alg"], r.acc.counts.get("stable-on-B", 0) > 0, "no stable box explored")
+    # layer 4 (ii): monotonicity of the exact propagators (direct two-box query; alldifferent/gcc by C14, see DESIGN)
+    for cfg in _lemma_cfgs(tier):
+        if cfg["alg"] not in MONO_DIRECT or cfg["n"] > (3 if tier == "quick" else 4) or len(cfg["params"]) > 4:
+            continue
+        if only and cfg["alg"] not in only:
+            continue
+        if tier == "quick" and cfg["alg"] in ("exactly_eq", "relation", "element_iv") and cfg["n"] >= 3:
+            continue
+        chk.explore("lemma_mono", dict(cfg=cfg), f"mono/{cfg['alg']}/n={cfg['n']}/{cfg['params']}")
+    # layer 2: queue-invariant step of the real loop
+    step_models = ["lt", "geq_leq", "alldiff_lt", "max_leq_min_geq", "queens_like", "shared_offset_lt", "shared_twice", "magic_like", "circuit3", "circuit3_twice", "and_true", "sum_eq"]
+    for name in step_models:
+        if only and name not in only:
+            continue
+        chk.explore("lemma_bcstep", dict(model=name), f"bcstep/{name}")
+    # layer 3: every consistency pass of whole runs (root, after each branch, after each backtrack)
+    runs = solvefam.plan(tier, seed, models=only, extra_default=True)
+    if tier == "quick":
+        runs = [r for r in runs if not r[1] or r[1].get("cons") == "shaving" or r[1].get("decision")][: 2 * len(h_solve.MODELS)]
+    batch = solvefam.run_plan(chk, ["C08"], runs)
+    chk.functions.update(["get_triggers_* of the narrow-mask constraints", "bound_consistency_algorithm (one iteration, cut at the second pop_propagator)"])
+    chk.stubs += ["pop_propagator cut at its second call (isolates one iteration of the real loop body)"]
+    chk.assumptions += [
+        "'largest common fixpoint whatever the order' = stability at exit (layers 2-3) + monotonicity of each exact propagator (layer 4; alldifferent and gcc through C14: an operator returning exactly the hull of the supported tuples is monotone) + the frame fact of layer 2, combined by the chaotic-iteration theorem (Apt 1999), which is cited, not mechanised",
+        "the queue-invariant step starts from an arbitrary state satisfying the invariant; a counterexample from a state no history reaches would be a lemma weakness (advisory), it is reported only if it reproduces through the public API",
+    ]
+    return chk.finish({"solve": batch})
+
+
+def load_known(pid):
+    from nusym.runner import load_known as lk
+
+    return lk(pid)
+
+
+TWINS = {
+    # name: (model A, model B)  -- B is a rewriting of A with the same meaning
+    "shared_vs_linked": ("twin_shared", "twin_linked"),
+    "posted_twice": ("alldiff_lt", "alldiff_lt_twice"),
+    "plus_dummy": ("max_eq", "max_eq_dummy"),
+    "plus_true": ("lt", "lt_true"),
+}
+
+
+def _install_twin_models():
+    from nusym import h_solve
+
+    M = h_solve.MODELS
+    S = ["s"]
+    M.setdefault("twin_shared", dict(doms=2, vars=[(0, 0), (0, "o0"), (1, 0)], props=[([1, 2], "affine_leq", [1, -1, 0]), ([0, 2], "alldifferent", [])]))
+    # the same model with a separate variable v1 linked to v0 by v1 - v0 = o  (offset as a parameter of the equality)
+    M.setdefault("twin_linked", dict(doms=3, vars=[(0, 0), (1, 0), (2, 0)], props=[([1, 2], "affine_leq", [1, -1, 0]), ([0, 2], "alldifferent", []), ([1, 0], "affine_eq", [1, -1, ["s", -2, 2]])], D=2))
+    M.setdefault("alldiff_lt_twice", dict(doms=3, vars=[(0, 0), (1, 0), (2, 0)], props=[([0, 1, 2], "alldifferent", []), ([0, 2], "affine_leq", [1, -1, -1]), ([0, 1, 2], "alldifferent", []), ([0, 2], "affine_leq", [1, -1, -1])]))
+    M.setdefault("max_eq_dummy", dict(doms=3, vars=[(0, 0), (1, 0), (2, 0)], props=[([0, 1, 2], "max_eq", []), ([0, 1, 2], "dummy", [])]))
+    M.setdefault("lt_true", dict(doms=2, vars=[(0, 0), (1, 0)], props=[([0, 1], "affine_leq", [1, -1, -1]), ([0, 1], "affine_leq", [0, 0, 0])]))
+    M.setdefault("lt_swapped", dict(doms=2, vars=[(1, 0), (0, 0)], props=[([1, 0], "affine_leq", [1, -1, -1])]))
+
+
+_install_twin_models()
+
+
+@check("C13")
+def c13(tier, seed, only):
+    from nusym import h_lemma, h_solve  # noqa
+    import itertools
+
+    chk = Check("C13", tier, seed)
+    # lemma 1: Problem.init flattening, every posting order
+    for name, md in h_solve.MODELS.items():
+        if only and name not in only:
+            continue
+        n = len(md["props"])
+        orders = [None] if n < 2 else [list(o) for o in itertools.permutations(range(n))][: (6 if tier == "quick" else 24)]
+        for order in orders:
+            r = chk.explore("lemma_init", dict(model=name, order=order), f"init/{name}/order={order}")
+            chk.require(name, r.acc.counts.get("init-ok", 0) > 0 or any(k.startswith("violation") for k in r.acc.counts), "init never completed")
+    # lemma 3: translation invariance of one filtering call, c symbolic and unbounded
+    for cfg in _lemma_cfgs(tier):
+        f = h_lemma.TRANSLATION_INVARIANT.get(cfg["alg"])
+        if f is None or cfg["n"] > (3 if tier == "quick" else 4) or (cfg["alg"] == "gcc" and (tier == "quick" and cfg["n"] >= 3)):
+            continue
+        if only and cfg["alg"] not in only:
+            continue
+        if cfg["alg"] == "gcc":
+            continue  # the box contract of gcc pins the values to [v0, v0+m): translation is covered by the symbolic-v0 run of the thorough tier
+        chk.explore("lemma_transl", dict(cfg=cfg), f"transl/{cfg['alg']}/n={cfg['n']}/{cfg['params']}")
+    # twin micro-models: both formulations are compared with the same semantic set (C02's exactly-once + complete query)
+    batch = []
+    twin_models = sorted({m for pair in TWINS.values() for m in pair} | {"lt_swapped"})
+    for name in twin_models:
+        if only and name not in only:
+            continue
+        batch += solvefam.run_plan(chk, ["C01", "C02"], [(name, {}), (name, dict(cons="shaving", domh="mid"))])
+        batch += solvefam.run_plan(chk, ["C03", "C01"], [(name, {})], mode="minimize", objective=0)
+    # permuting constraints
+    for name, md in h_solve.MODELS.items():
+        if only and name not in only:
+            continue
+        n = len(md["props"])
+        if 2 <= n <= 3 and name not in twin_models:
+            for order in list(itertools.permutations(range(n)))[1:]:
+                batch += solvefam.run_plan(chk, ["C01", "C02"], [(name, {})], order=list(order))
+    chk.assumptions += [
+        "twin formulations (shared domain + offset vs separate variables linked by an equality; a constraint posted twice; an added dummy / always-true constraint; permuted constraints or variables) have the same semantic set by construction; each formulation is decided equal to that set by z3 (exactly once + complete), hence equal to each other; optima likewise",
+        "'shipped examples at sizes far beyond brute force' is outside the claim: whole searches are explored symbolically only for micro-models; the size-independent part are the lemmas (init flattening, offset write-back via the shared_twice/queens_like models, translation)",
+    ]
+    return chk.finish({"solve": batch})
